@@ -259,7 +259,8 @@ __attribute__((constructor(101))) static void sim_ctor(void)
 	const char *cpu = getenv("VERIF_CPU_LIMIT");
 	if (cpu) {
 		struct rlimit rl;
-		rl.rlim_cur = rl.rlim_max = strtoul(cpu, NULL, 0);
+		rl.rlim_cur = strtoul(cpu, NULL, 0);
+		rl.rlim_max = rl.rlim_cur + 2; /* SIGXCPU first: tells a CPU hog apart from an external SIGKILL */
 		setrlimit(RLIMIT_CPU, &rl);
 	}
 	if (!plan)
